@@ -15,6 +15,14 @@ pub fn observe(line: &str) -> String {
             Some(inp) => guarded(|| load(&inp)),
             None => "bad-request".into(),
         },
+        ["decq", h] => match unhex(h) {
+            Some(inp) => guarded(|| if Parser::decode(&inp).is_ok() { "ok".into() } else { "err".into() }),
+            None => "bad-request".into(),
+        },
+        ["par", h] => match unhex(h) {
+            Some(inp) => guarded(|| par(&inp)),
+            None => "bad-request".into(),
+        },
         ["hex", h] => match unhex(h) {
             Some(inp) => guarded(|| hex(get_sha1_hexdigest(&inp).as_bytes())),
             None => "bad-request".into(),
@@ -30,6 +38,35 @@ pub fn observe(line: &str) -> String {
         },
         _ => "bad-request".into(),
     }
+}
+
+/// the same document through `Parser::decode` and `Torrent::from_bytes` on 12 threads at once, 12 times each; every
+/// answer is compared with the answer of a single call made before the threads start
+fn par(inp: &[u8]) -> String {
+    fn once(inp: &[u8]) -> (bool, bool, Option<Vec<u8>>) {
+        let decoded = Parser::decode(inp).is_ok();
+        let loaded = Torrent::from_bytes(inp);
+        (decoded, loaded.is_ok(), loaded.ok().map(|t| t.info_hash.to_vec()))
+    }
+    let reference = once(inp);
+    let shared: std::sync::Arc<Vec<u8>> = std::sync::Arc::new(inp.to_vec());
+    let barrier = std::sync::Arc::new(std::sync::Barrier::new(12));
+    let mut handles = Vec::new();
+    for _ in 0..12 {
+        let shared = shared.clone();
+        let barrier = barrier.clone();
+        let reference = reference.clone();
+        // a deep document needs a deep stack on a spawned thread too
+        handles.push(std::thread::Builder::new().stack_size(256 << 20).spawn(move || {
+            barrier.wait();
+            (0..12).all(|_| once(&shared) == reference)
+        }).unwrap());
+    }
+    let mut same = true;
+    for handle in handles {
+        same &= handle.join().unwrap_or(false);
+    }
+    if same { format!("same {}", if reference.1 { "ok" } else { "err" }) } else { "differs".into() }
 }
 
 fn guarded<F: FnOnce() -> String>(f: F) -> String {
